@@ -1012,10 +1012,28 @@ func (c *compiler) toData(typ Type, data *token) []instruction {
 			res = append(res, instruction{Code: codeNewMap, A: reg(kt), B: reg(vt), C: reg(len(data.Tokens))})
 		case TypeSlice:
 			dt := typ.value()
-			for _, t := range data.Tokens {
+			elems := data.Tokens
+			if data.Symbol == ":" { // index: value pairs: the elements go where their indices say, zero values between them
+				elems = nil
+				for i := 0; i+1 < len(data.Tokens); i += 2 {
+					k := data.Tokens[i]
+					if k.Symbol != "(int)" || k.Int() < 0 || k.Int() > 1<<20 {
+						panicf("slice literal index must be a small integer literal")
+					}
+					for len(elems) <= k.Int() {
+						elems = append(elems, nil)
+					}
+					elems[k.Int()] = data.Tokens[i+1]
+				}
+			}
+			for _, t := range elems {
+				if t == nil {
+					res = append(res, instruction{Code: codeZero, A: reg(dt)})
+					continue
+				}
 				res = append(res, c.toData(dt, t)...)
 			}
-			res = append(res, instruction{Code: codeNewSlice, A: reg(dt), B: reg(len(data.Tokens))})
+			res = append(res, instruction{Code: codeNewSlice, A: reg(dt), B: reg(len(elems))})
 		case TypeStruct:
 			st := typ.value()
 			for i := 0; i < len(data.Tokens); i += 2 {
